@@ -21,6 +21,10 @@ fn main() {
         std::process::exit(2);
     }
     driver::install_panic_hook();
+    if args[1] == "nondet-selftest" {
+        let seed: u64 = args.get(2).and_then(|s| s.parse().ok()).unwrap_or(1);
+        std::process::exit(c19::nondet_selftest(seed, 300));
+    }
     let opts = Opts::from_args(&args[2..]);
     let code = match args[1].as_str() {
         "c19-finish" => run(c19::C19, &opts),
